@@ -134,7 +134,7 @@ def growth_by_evaluation(b):
                             if q[0] == "field" and q[1] == "memlimit":
                                 return m
                             raise pat.NotEvaluable(q)
-                        got = pat.reached_under(b, pt, 0, lf, {g.idx} | errs | oks)
+                        got = pat.reached_under(b, pt, 0, lf, {g.idx} | errs | oks, strict=True)
                         grew = g.idx in got
                         refused = bool(got & errs) and not (got & oks)
                         need = L < i + 1
